@@ -42,24 +42,115 @@ class Handlers:
         i = self.info[hb.id]
         return (i["root"], "%s@%s" % (i["role"], i["target"]))
 
-    def context(self, body):
-        """Nearest enclosing handler (walking closure creation parents): (info, chain)."""
-        chain = []
+    def stable_name(self, body):
+        """Line-free and closure-index-free name: root fn + the chain of roles of the enclosing
+        closures (robust against closures being added/removed elsewhere in the function)."""
+        labels = []
         b = body
         seen = set()
+        while b is not None and b.kind == "closure" and b.id not in seen:
+            seen.add(b.id)
+            if b.id in self.info:
+                i = self.info[b.id]
+                labels.append("%s@%s" % (i["role"], i["target"]))
+            else:
+                rs = [r for r in self.E.role_of(b.id)]
+                labels.append(rs[0].split(":")[0] if rs else "closure")
+            cr = self.P.created.get(b.id)
+            b = cr[0] if cr else None
+        rootn = norm(body.root)
+        # local fns (do_subscribe, complete_and_next) keep their own path below the root
+        if b is not None and b.kind != "closure":
+            rootn = b.nid
+        return rootn + "".join("/" + l for l in reversed(labels))
+
+    def is_trigger_triple(self, t):
+        """A trigger/gate observer: its next-handler ignores its payload altogether (`|_, _|`)."""
+        hb = t["handlers"].get("N")
+        if hb is None or hb.argc < 3:
+            return False
+
+        def uses3(o):
+            return isinstance(o, dict) and o.get("k") in ("copy", "move") and o["p"][0] == 3
+
+        for i in hb.reach:
+            bb = hb.blocks[i]
+            for st in bb["stmts"]:
+                if st["k"] != "assign":
+                    continue
+                rv = st["rv"]
+                if rv.get("p", [None])[0] == 3:
+                    return False
+                for k in ("op", "a", "b"):
+                    if uses3(rv.get(k)):
+                        return False
+                if any(uses3(o) for o in rv.get("ops", [])):
+                    return False
+            tm = bb["term"]
+            if tm["k"] == "call" and any(uses3(a) for a in tm["args"]):
+                return False
+            if tm["k"] == "switch" and uses3(tm["discr"]):
+                return False
+        return True
+
+    def context(self, body, _seen=None):
+        """Nearest enclosing handler (walking closure creation parents; a local `fn` inherits the
+        context of its callers when they all agree): (info, chain)."""
+        chain = []
+        b = body
+        seen = set() if _seen is None else _seen
         while b is not None and b.id not in seen:
             seen.add(b.id)
             if b.id in self.info:
                 return self.info[b.id], chain
             chain.append(b)
             cr = self.P.created.get(b.id)
-            b = cr[0] if cr else None
+            if cr:
+                b = cr[0]
+                continue
+            if b.kind == "fn":
+                ctxs = []
+                for (cb, c) in self.callers(b):
+                    i, _ = self.context(cb, seen)
+                    ctxs.append(i)
+                ids = {id(i) for i in ctxs}
+                if ctxs and len(ids) == 1 and ctxs[0] is not None:
+                    return ctxs[0], chain
+            b = None
         return None, chain
+
+    def callers(self, fnbody):
+        if not hasattr(self, "_callers"):
+            self._callers = {}
+        if fnbody.id not in self._callers:
+            out = []
+            for x in self.P.bodies.values():
+                for c in x.calls:
+                    if not c.indirect and c.local and c.path == fnbody.nid:
+                        out.append((x, c))
+            self._callers[fnbody.id] = out
+        return self._callers[fnbody.id]
 
     def origins(self, body, operand):
         out = set()
         for t in body.operand_prov(operand):
-            out |= self.P.global_cell(body, t)
+            out |= self._origins_term(body, t, 0)
+        return out
+
+    def _origins_term(self, body, t, depth):
+        """global terms; a parameter of a local `fn` is replaced by what its callers pass."""
+        out = set()
+        for g in self.P.global_cell(body, t):
+            gb = self.P.bodies[g[0]]
+            if g[1] == "param" and gb.kind == "fn" and depth < 3 and gb.raw.get("parent_kind") in ("Closure", "Fn", "AssocFn"):
+                cs = self.callers(gb)
+                if cs and g[2] - 1 < min(len(c.args) for (_, c) in cs):
+                    for (cb, c) in cs:
+                        for t2 in cb.operand_prov(c.args[g[2] - 1]):
+                            for g2 in self._origins_term(cb, t2, depth + 1):
+                                out.add((g2[0], g2[1], g2[2], g2[3] + g[3]))
+                    continue
+            out.add(g)
         return out
 
     def derived_from_param(self, body, operand, hbody, param):
@@ -205,13 +296,22 @@ def h_serial(P, E, H):
 
 # --------------------------------------------------------------------------- H-complete
 
-# §5.9: the trigger observers of take_until / skip_until / sample (a trigger that completes
-# without firing changes nothing; the source observer still forces completion).
-H_COMPLETE_EXEMPT = {
-    ("operators::take_until::TakeUntil::execute", "C@upvar:trigger"),
-    ("operators::skip_until::SkipUntil::execute", "C@upvar:trigger"),
-    ("operators::sample::Sample::execute", "C@upvar:trigger"),
-}
+# §5.9: a *trigger* observer (its next-handler never forwards its own payload: take_until /
+# skip_until / sample triggers) may ignore its own completion - a trigger that completes without
+# firing changes nothing - provided the data input registered in the same body forces completion.
+
+
+def _trigger_complete_exempt(P, E, H, t):
+    if not H.is_trigger_triple(t):
+        return False
+    site_body = t["site"].body
+    for o in H.triples:
+        if o is t or o["site"].body.id != site_body.id or H.is_trigger_triple(o):
+            continue
+        cb = o["handlers"].get("C")
+        if cb is not None and any(atom(c) == "sink_complete_force" for c in cb.calls):
+            return True
+    return False
 
 
 def h_complete(P, E, H, scope=None):
@@ -242,7 +342,7 @@ def h_complete(P, E, H, scope=None):
         nontrivial = len(hb.calls) > 0
         r.instance(key, nontrivial, "complete-handler %s" % hb.nid)
         if not ok:
-            if key in H_COMPLETE_EXEMPT:
+            if _trigger_complete_exempt(P, E, H, t):
                 continue
             path = eng.counterexample(hb)
             r.violate(key + ("no completion on some path",),
@@ -257,7 +357,7 @@ def h_complete(P, E, H, scope=None):
 # §5.9 exemption: `contains` maps error to (false, complete): pinned by the asserted test
 # contains::test::error.
 H_ERROR_EXEMPT = {
-    ("operators::contains::Contains::execute", "E@upvar:source"),
+    "operators::contains::Contains::execute",
 }
 
 
@@ -324,7 +424,7 @@ def h_error(P, E, H, scope=None):
         ok = eng.holds(hb)
         r.instance(key, len(hb.calls) > 0, "error-handler %s" % hb.nid)
         if not ok:
-            if key in H_ERROR_EXEMPT:
+            if key[0] in H_ERROR_EXEMPT:
                 continue
             path = eng.counterexample(hb)
             r.violate(key + ("error not forwarded on some path",),
